@@ -25,7 +25,7 @@ structure Inv (s : St) : Prop where
 theorem inv_init (max : Nat) : Inv { max := max } := by
   constructor <;> simp
 
-private theorem closed_cases (s : St) (g i : String) (h : Option Nat) :
+theorem closed_cases (s : St) (g i : String) (h : Option Nat) :
     ((rmvFirst s.conns g i h).2 = none ∧ (rmvFirst s.conns g i h).1 = s.conns) ∨
     (∃ x, (rmvFirst s.conns g i h).2 = some x) := by
   cases hx : (rmvFirst s.conns g i h).2 with
